@@ -217,6 +217,22 @@ macro_rules! beh_job {
               );
             }
           }
+          // ... and counts its attached subscribers
+          let attached = live.iter().filter(|l| **l).count();
+          for (i, hh) in h.iter().enumerate() {
+            if open && attached > 0 && (hh.is_empty() || hh.len() < attached) {
+              obs.fail(
+                format!("c12:{}:api-empty", $label),
+                format!("after [{}]: {attached} subscribers are attached, h{i}.is_empty()={} len()={}", hist.join(" "), hh.is_empty(), hh.len()),
+              );
+            }
+            if !open && (!hh.is_empty() || hh.len() != 0) {
+              obs.fail(
+                format!("c12:{}:api-empty", $label),
+                format!("after [{}]: the subject is terminated / unsubscribed, h{i}.is_empty()={} len()={}", hist.join(" "), hh.is_empty(), hh.len()),
+              );
+            }
+          }
           for (i, hh) in h.iter().enumerate() {
             let pk = hh.peek();
             if pk != value {
